@@ -238,6 +238,280 @@ def check_history(chk, states, f):
                     return
 
 
+# ---- code -> spec: recorded histories validated by TLC against TraceSeries.tla ----------------------------------------------
+T_ULO, T_UHI, T_MARGIN = -14, 32, 5
+T_HANDLES = ("h1", "h2", "h3", "h4")
+NAN, NONE = tlaval.MV("NaN"), tlaval.MV("None")
+
+
+def _canon_of(w, x):
+    """Stored form of a real Series as the spec's canonical record; None if a value is not an integer (cannot be a spec value)."""
+    nv, start, rows = w.project(x)
+    out = []
+    for row in rows:
+        r = []
+        for v in row:
+            if isinstance(v, float) and math.isnan(v):
+                r.append(NAN)
+            elif float(v) == int(v) and abs(v) < 2 ** 30:
+                r.append(int(v))
+            else:
+                return None
+        out.append(tuple(r))
+    return {"nv": nv, "start": NONE if start is None else int(start), "rows": tuple(out)}
+
+
+def _rand_series(rnd):
+    nv = rnd.choice((1, 1, 2, 3))
+    n = rnd.choice((0, 1, 2, 3, 4, 6))
+    if n == 0:
+        return {"nv": nv, "start": NONE, "rows": ()}
+    rows = [[rnd.choice((NAN, NAN, rnd.randint(-9, 9))) for _ in range(nv)] for _ in range(n)]
+    for edge in (0, n - 1):
+        if all(v is NAN for v in rows[edge]):
+            rows[edge][rnd.randrange(nv)] = rnd.randint(-9, 9)
+    return {"nv": nv, "start": rnd.randint(-4, 10), "rows": tuple(tuple(r) for r in rows)}
+
+
+def _rand_op(rnd, nvA, nvB):
+    """An operation in the encoding of SeriesHist.Ops, with wider parameters than the model-checked configuration."""
+    form = rnd.choice(("method", "func"))
+    per = lambda: rnd.randint(-6, 24)
+    vs = lambda: NONE if nvA == 1 or rnd.random() < 0.5 else tuple(sorted(rnd.sample(range(1, nvA + 1), rnd.randint(1, nvA))))
+    kind = rnd.choice(("get", "call", "set", "set", "shift", "clip", "un", "elem", "binsc", "rbinsc", "stat", "mov", "fill", "extrap", "copy",
+                       "overlay", "underlay", "hstack", "binser", "binser"))
+    if kind == "get":
+        return ("get", tuple(per() for _ in range(rnd.randint(1, 4))), vs())
+    if kind == "call":
+        return ("call", tuple(sorted(rnd.sample(range(-6, 25), rnd.randint(1, 4)))), NONE)
+    if kind == "set":
+        P = tuple(rnd.sample(range(-4, 20), rnd.randint(1, 3)))
+        V = vs()
+        ncol = nvA if V is NONE else len(V)
+        val = lambda: rnd.choice((NAN, rnd.randint(-9, 9), rnd.randint(-9, 9)))
+        if rnd.random() < 0.5:
+            return ("set", P, ("sc", val()), V)
+        nc = rnd.choice((1, ncol))
+        return ("set", P, ("mx", tuple(tuple(val() for _ in range(nc)) for _ in P)), V)
+    if kind == "shift":
+        return ("shift", form, rnd.choice((-3, -2, -1, 1, 2, 3)))
+    if kind == "clip":
+        lo, hi = sorted((per(), per()))
+        return ("clip", rnd.choice((NONE, lo)), rnd.choice((NONE, hi)))
+    if kind == "un":
+        return ("un", rnd.choice(("neg", "abs", "pos")))
+    if kind == "elem":
+        f = rnd.choice(("abs", "maximum", "minimum"))
+        return ("elem", form, f, 0 if f == "abs" else rnd.randint(-3, 3))
+    if kind in ("binsc", "rbinsc"):
+        return (kind, rnd.choice(("add", "sub", "mul")), rnd.randint(-3, 3))
+    if kind == "stat":
+        return ("stat", form, rnd.choice(("sum", "max", "min", "nansum", "nanmax", "nanmin")))
+    if kind == "mov":
+        return ("mov", form, "sum", rnd.randint(2, 3))
+    if kind == "fill":
+        lo = per()
+        sp = rnd.choice((NONE, (lo, lo + rnd.randint(0, 5))))
+        m = rnd.choice(("constant", "previous", "next") + (("from_series",) if nvB == 1 else ()))
+        return ("fill", form, m, rnd.randint(-9, 9) if m == "constant" else 0, sp)
+    if kind == "extrap":
+        lo = rnd.randint(-2, 18)
+        return ("extrap", form, tuple(rnd.randint(-2, 2) for _ in range(rnd.randint(1, 2))), rnd.randint(-2, 2), lo, lo + rnd.randint(0, 2))
+    if kind == "copy":
+        return ("copy",)
+    if kind in ("overlay", "underlay"):
+        return (kind, form)
+    if kind == "hstack":
+        return ("hstack",)
+    return ("binser", rnd.choice(("add", "sub", "mul")))
+
+
+def _uses_b(op):
+    return op[0] in ("overlay", "underlay", "hstack", "binser") or (op[0] == "fill" and op[2] == "from_series")
+
+
+def _has_result(op):
+    return op[0] in ("call", "hstack", "binser", "binsc", "rbinsc", "un", "copy") or (op[0] in ("shift", "overlay", "underlay", "elem", "stat", "mov", "fill", "extrap") and op[1] == "func")
+
+
+def _loose_after(loose, op, r, k):
+    """Port of SeriesHist.NewLoose, used only to keep the driver inside the operations the spec enables."""
+    exact_a = not (op[0] == "clip" or (op[0] == "elem" and op[1] == "method"))
+    exact_res = not (op[0] == "elem" and op[1] == "func")
+    la_a = (r in loose and op[0] in ("get", "call", "copy", "un", "binsc", "rbinsc", "stat", "mov", "overlay", "underlay", "hstack", "binser", "fill", "extrap", "shift", "elem")) or not exact_a
+    la_res = not exact_res or (r in loose and op[0] in ("copy", "shift", "elem"))
+    loose = set(loose)
+    if not _has_result(op):
+        if op[0] in ("set", "fill", "extrap", "stat", "mov", "overlay", "underlay") and not la_a:
+            loose.discard(r)
+        elif la_a:
+            loose.add(r)
+    elif la_res:
+        loose.add(k)
+    else:
+        loose.discard(k)
+    return loose
+
+
+def rerecord_trace(f, trace):
+    """Re-drive real Series objects through the operations of a stored trace (for --replay)."""
+    w = World(f)
+    init = trace["init"]
+    objs = {h: w.build(init[h]) for h in T_HANDLES}
+    steps = []
+    for st in trace["steps"]:
+        op, r, g, k = st["op"], st["r"], st["g"], st["k"]
+        raised = False
+        try:
+            res, val = apply_op(w, objs[r], objs[g], op, alt=bool(st.get("alt")))
+        except MachineryError:
+            raise
+        except Exception:
+            res, val, raised = None, None, True
+        if not raised and res is not None:
+            objs[k] = res
+        cs = {h: _canon_of(w, objs[h]) for h in T_HANDLES}
+        if any(c is None for c in cs.values()):
+            return {"init": init, "steps": tuple(steps)}, "after %r on %s a value is not an integer: %r" % (_plain(op), r, {h: w.project(objs[h]) for h in T_HANDLES})
+        v = NONE
+        if op[0] == "get" and not raised:
+            arr = np.asarray(val, dtype=float).reshape(len(op[1]), -1)
+            v = tuple(tuple(NAN if math.isnan(x) else int(x) for x in row) for row in arr)
+        steps.append({"op": op, "r": r, "g": g, "k": k, "raised": raised, "cs": cs, "val": v, "alt": bool(st.get("alt"))})
+    return {"init": init, "steps": tuple(steps)}, None
+
+
+def record_trace(rnd, f, nsteps):
+    """Drive real Series objects; returns (trace record for TLC, python-level problem or None)."""
+    w = World(f)
+    init = {h: _rand_series(rnd) for h in T_HANDLES}
+    objs = {h: w.build(init[h]) for h in T_HANDLES}
+    loose = set()
+    steps = []
+    for _ in range(nsteps):
+        r = rnd.choice(T_HANDLES)
+        nvA = objs[r].shape[1]
+        g = rnd.choice([h for h in T_HANDLES if h != r])
+        op = _rand_op(rnd, nvA, objs[g].shape[1])
+        if not _uses_b(op):
+            g = r
+        else:
+            nvB = objs[g].shape[1]
+            compatible = nvA == nvB or nvA == 1 or nvB == 1
+            if op[0] == "hstack" and nvA + nvB > 4:
+                continue
+            if op[0] != "hstack" and not compatible and rnd.random() < 0.8:
+                continue                      # a few incompatible pairs are kept: the spec says they are rejected
+        if r in loose and ((op[0] == "fill" and op[4] is NONE) or (op[0] == "stat" and op[2].startswith("nan")) or op[0] == "underlay"):
+            continue
+        if g in loose and op[0] == "overlay":
+            continue
+        k = rnd.choice(T_HANDLES) if _has_result(op) else r
+        raised = False
+        alt = rnd.random() < 0.5
+        try:
+            res, val = apply_op(w, objs[r], objs[g], op, alt=alt)
+        except MachineryError:
+            raise
+        except Exception:
+            res, val, raised = None, None, True
+        if not raised:
+            if res is not None:
+                objs[k] = res
+            loose = _loose_after(loose, op, r, k)
+        cs = {h: _canon_of(w, objs[h]) for h in T_HANDLES}
+        if any(c is None for c in cs.values()):
+            return {"init": init, "steps": tuple(steps)}, "after %r on %s a value is not an integer: %r" % (_plain(op), r, {h: w.project(objs[h]) for h in T_HANDLES})
+        big = any(isinstance(v, int) and abs(v) > 10 ** 6 for c in cs.values() for row in c["rows"] for v in row)
+        out = any(c["start"] is not NONE and (c["start"] < T_ULO + T_MARGIN or c["start"] + len(c["rows"]) - 1 > T_UHI - T_MARGIN) for c in cs.values())
+        if big or out:
+            break                              # leave the window the spec instance covers: the trace ends before this step
+        v = NONE
+        if op[0] == "get" and not raised:
+            arr = np.asarray(val, dtype=float).reshape(len(op[1]), -1)
+            v = tuple(tuple(NAN if math.isnan(x) else int(x) for x in row) for row in arr)
+        steps.append({"op": op, "r": r, "g": g, "k": k, "raised": raised, "cs": cs, "val": v, "alt": alt})
+    return {"init": init, "steps": tuple(steps)}, None
+
+
+def trace_direction(chk, ntraces, nsteps):
+    import random
+    from .. import tracecheck
+    rnd = random.Random(chk.seed * 7919 + 10)
+    traces, freqs = [], []
+    for i in range(ntraces):
+        f = FREQS[i % 6]
+        t, problem = record_trace(rnd, f, nsteps)
+        if problem:
+            chk.mismatch("series-trace:non-integer", "recorded history (%s): %s" % (f, problem), {"kind": "series-trace", "freq": f, "trace": _plain(t)})
+            continue
+        traces.append(t)
+        freqs.append(f)
+    validate_traces(chk, traces, freqs, selftest=True)
+
+
+def validate_traces(chk, traces, freqs, selftest):
+    from .. import tracecheck
+    defs = {"TULo": str(T_ULO), "TUHi": str(T_UHI), "THandles": tlaval.to_tla(set(T_HANDLES))}
+    rejected, _, r = tracecheck.validate_literal_parallel("TraceSeries", "TraceSeries.cfg", "Series", defs, traces, chk.scratch, chunks=12, timeout=3600)
+    diags = []
+    if rejected:      # second pass over the rejected traces only, with the diagnostic action that prints what the spec predicted
+        idx = sorted(rejected)
+        _, d2, _ = tracecheck.validate_literal("TraceSeries", "TraceSeriesDiag.cfg", "Series", defs, [traces[i] for i in idx], chk.scratch, timeout=1800, tag="diag")
+        diags = [(x[0], idx[x[1] - 1] + 1) + tuple(x[2:]) for x in d2 if isinstance(x, tuple) and len(x) > 2 and isinstance(x[1], int)]
+    nsteps_total = sum(len(t["steps"]) for t in traces)
+    chk.tlc_runs.append({"run": "TraceSeries (recorded histories)", "generated": r.generated, "distinct": r.distinct, "traces": len(traces),
+                         "steps": nsteps_total, "wall_s": round(r.wall, 1)})
+    chk.states += r.distinct
+    chk.transitions += r.generated
+    not_enabled = 0
+    for i, line in sorted(rejected.items()):
+        t = traces[i]
+        d = [x for x in diags if isinstance(x, tuple) and len(x) > 2 and x[1] == i + 1 and x[2] == line]
+        if d and d[0][0] == "NOTENABLED":
+            not_enabled += 1               # the driver issued an operation outside the spec's enabling condition: no claim about the rest
+            continue
+        st = t["steps"][line - 1] if 0 < line <= len(t["steps"]) else None
+        pred = _plain(d[0][3:]) if d else "?"
+        what = ("recorded history (%s) is not a behaviour of SeriesHist: step %d %s recv=%s arg=%s target=%s raised=%s; observed afterwards %s value %s; "
+                "the spec predicts (handles, value, loose) %s; history so far %s from %s" % (
+                    freqs[i], line, _plain(st["op"]) if st else "?", st and st["r"], st and st["g"], st and st["k"], st and st["raised"],
+                    _plain(st["cs"]) if st else "?", _plain(st["val"]) if st else "?", pred,
+                    [_plain(s["op"]) for s in t["steps"][:line - 1]], _plain(t["init"])))
+        chk.mismatch("series-trace:%s" % (op_tag(st["op"]) if st else "?"), what, {"kind": "series-trace", "freq": freqs[i], "trace": _plain(t), "line": line})
+    # the binding itself: a recorded history with ONE field corrupted must be rejected at exactly that line
+    import copy
+    corrupted, expect = [], []
+    for i, t in enumerate(traces if selftest else ()):
+        if i in rejected or len(t["steps"]) < 6:
+            continue
+        for j in (len(t["steps"]) // 2, len(t["steps"]) - 1):
+            st = t["steps"][j]
+            target = next((h for h in T_HANDLES if not is_mv(st["cs"][h]["start"])), None)
+            if target is None:
+                continue
+            c = copy.deepcopy(t)
+            rows = [list(r) for r in c["steps"][j]["cs"][target]["rows"]]
+            rows[0][0] = 77 if is_mv(rows[0][0]) else rows[0][0] + 1
+            c["steps"][j]["cs"][target]["rows"] = tuple(tuple(r) for r in rows)
+            corrupted.append(c)
+            expect.append(j + 1)
+        if len(corrupted) >= 4:
+            break
+    if corrupted:
+        rej2, _, _ = tracecheck.validate_literal("TraceSeries", "TraceSeries.cfg", "Series", defs, corrupted, chk.scratch, timeout=1800, tag="corrupt")
+        got = [rej2.get(i) for i in range(len(corrupted))]
+        if got != expect:
+            raise MachineryError("TraceSeries: corrupted histories were rejected at lines %s, expected %s (trace validation does not bind)" % (got, expect))
+        chk.notes["corrupted_histories_rejected"] = len(corrupted)
+    if not_enabled > len(traces) // 5:
+        raise MachineryError("TraceSeries: %d of %d traces left the spec's enabling conditions (driver out of sync with SeriesHist.Pre)" % (not_enabled, len(traces)))
+    chk.traces += len(traces) - not_enabled
+    chk.notes["recorded_histories_validated_by_tlc"] = len(traces) - not_enabled
+    chk.notes["recorded_steps"] = nsteps_total
+    chk.notes["recorded_histories_truncated_not_enabled"] = not_enabled
+
+
 def run(chk):
     thorough = chk.tier == "thorough"
     dump = chk.scratch.file("series.dump")
@@ -277,6 +551,7 @@ def run(chk):
                                            "final": _plain(states[-1]["cs"])}})
     chk.replayed += len(files)
     chk.notes["series_histories_replayed"] = len(files)
+    trace_direction(chk, 1500 if thorough else 250, 30)
     chk.exhaustive = True
     chk.rule = ("every series state with observations in a 3-period (1 variant) / 2-period (2 variants) window [quick; 4/3 thorough] over "
                 "values {NaN, 2, -3} x every operation instance of SeriesStep (get/call/set/shift/clip/overlay/underlay/hstack/arithmetic/"
@@ -288,6 +563,13 @@ def run(chk):
 
 
 def replay(chk, sc):
+    if sc.get("kind") == "series-trace":
+        t, problem = rerecord_trace(sc["freq"], _unplain(sc["trace"]))
+        if problem:
+            chk.mismatch("series-trace:non-integer", "recorded history (%s): %s" % (sc["freq"], problem), sc)
+        else:
+            validate_traces(chk, [t], [sc["freq"]], selftest=False)
+        return
     st = {"ca": _unplain(sc["a"]), "cb": _unplain(sc["b"]), "op": _unplain(sc["op"]), "post": _unplain(sc["post"])}
     check_step(chk, st, sc["freq"], sc["alt"])
     chk.replayed += 1
